@@ -11,6 +11,7 @@ package main
 // Next to the bytes the generator builds the value a correct parser must return.
 
 import (
+	"strings"
 	"encoding/binary"
 	"fmt"
 
@@ -90,28 +91,44 @@ func (g *G) specSwitchFrame() ([]byte, util.Message, string, string) {
 	hdr := func(ty uint8) common.Header { return common.Header{Version: 4, Type: ty, Xid: xid} }
 	w := &sw{}
 	switch g.r.Intn(16) {
-	case 0: // hello with a version bitmap, sometimes followed by an element of another type
+	case 0: // hello: any list of elements - version bitmaps with 0..4 words, elements of other types (to be skipped)
 		w.header(0, xid)
-		nb := 1 + g.r.Intn(3)
 		h := &common.Hello{Header: hdr(0)}
-		v := &common.HelloElemVersionBitmap{HelloElemHeader: common.HelloElemHeader{Type: 1, Length: uint16(4 + 4*nb)}}
-		w.u16(1)
-		w.u16(uint16(4 + 4*nb))
-		for i := 0; i < nb; i++ {
-			x := uint32(g.r.Bits(32))
-			v.Bitmaps = append(v.Bitmaps, x)
-			w.u32(x)
-		}
-		w.pad((8 - (4+4*nb)%8) % 8)
-		h.Elements = []common.HelloElem{v}
-		if g.r.Intn(3) == 0 { // an element this library does not know: must be skipped
-			w.u16(uint16(2 + g.r.Intn(50)))
-			w.u16(6)
-			w.raw(g.r.Bytes(2))
-			w.pad(2)
+		h.Elements = []common.HelloElem{}
+		var ets []string
+		for k := g.r.Geom(2, 6); k > 0; k-- {
+			if g.r.Intn(3) > 0 {
+				nb := g.r.Intn(5)
+				v := &common.HelloElemVersionBitmap{HelloElemHeader: common.HelloElemHeader{Type: 1, Length: uint16(4 + 4*nb)}}
+				v.Bitmaps = []uint32{}
+				w.u16(1)
+				w.u16(uint16(4 + 4*nb))
+				ws := make([]string, nb)
+				for i := 0; i < nb; i++ {
+					x := uint32(g.r.Bits(32))
+					v.Bitmaps = append(v.Bitmaps, x)
+					w.u32(x)
+					ws[i] = fmt.Sprint(x)
+				}
+				w.pad((8 - (4+4*nb)%8) % 8)
+				h.Elements = append(h.Elements, v)
+				ets = append(ets, "(HBitmap ["+strings.Join(ws, "; ")+"])")
+			} else { // an element this library does not know: must be skipped
+				ty := uint16(g.r.Intn(60))
+				if ty == 1 {
+					ty = 2
+				}
+				body := g.r.Bytes(g.r.Intn(21))
+				w.u16(ty)
+				w.u16(uint16(4 + len(body)))
+				w.raw(body)
+				w.pad((8 - (4+len(body))%8) % 8)
+				ets = append(ets, fmt.Sprintf("(HOther %d %s)", ty, bterm(body)))
+			}
 		}
 		b := w.finish()
 		h.Header.Length = uint16(len(b))
+		g.swRecipe = "(SHello " + listT(ets) + ")"
 		return b, h, "hello", ""
 	case 1: // error
 		e := &of.ErrorMsg{Header: hdr(1), Type: uint16(g.r.Intn(14)), Code: uint16(g.r.Bits(16))}
